@@ -886,3 +886,83 @@ Theorem C07_term_log_refused :
   yrun (yinit 2) [YNew 0 7 0; YIter 1 0; YRelease 1 0] = None.
 Proof. exact ylog_late_refused. Qed.
 Print Assumptions C07_term_log_refused.
+
+(* ------------------------------------------------------------------------------------------------
+   STORECONC: the unique table and the counts of Mgr/Conc.v RUNNING ON the node store of
+   Mgr/IndexStore.v (on the slot allocator of Mgr/Alloc.v): Mgr/Core.v.  [AGoi]'s id argument is no
+   oracle any more: it is the slot id that `Store::add_node` (IAdd) returned. *)
+From OxiVerif Require Mgr.Alloc Mgr.AllocExamples Mgr.IndexStore Mgr.IndexStoreProofs Mgr.Core Mgr.CoreLink Mgr.CoreProofs
+  Mgr.CoreThms Mgr.CoreExamples.
+
+(* the Conc.v actions one action of the core stands for: the id of [AGoi] is the id in the result
+   (found: the table's; new: the store's); a failed `get_or_insert` is the release of the consumed
+   child edges; collector step on a referenced node and allocator-internal actions: nothing *)
+Theorem C07_core_kacts_def : forall a r,
+  Core.kacts a r =
+  match a, r with
+  | Core.KGoi tid lvl ch, Core.KRFound id => [Conc.AGoi tid lvl ch id]
+  | Core.KGoi tid lvl ch, Core.KRNew id => [Conc.AGoi tid lvl ch id]
+  | Core.KGoi tid _ ch, Core.KROom => map (Conc.ARelease tid) ch
+  | Core.KRetain tid e, _ => [Conc.ARetain tid e]
+  | Core.KRelease tid e, _ => [Conc.ARelease tid e]
+  | Core.KMove tid tid' e, _ => [Conc.AMove tid tid' e]
+  | Core.KNot tid e, _ => [Conc.ANot tid e]
+  | Core.KGc _ id, Core.KRRemoved => [Conc.AGcNode id]
+  | _, _ => []
+  end.
+Proof. intros; reflexivity. Qed.
+Print Assumptions C07_core_kacts_def.
+
+(* the invariant of the composition: the store's, Conc's on the projection, and the link: one
+   hash-table edge value per stored node, every token's edge value points to its node, all edge
+   values distinct, stored count = reported count + 1, the edge values inside a node = its inner
+   child edges in order *)
+Theorem C07_core_inv_def : forall k terms nl c s,
+  CoreProofs.KInv k terms nl c s <->
+  IndexStoreProofs.IInv c (Core.k_i s) /\ ConcProofs.CInv k terms nl (Core.kproj s) /\
+  CoreLink.KLinkP (IndexStore.i_hs (Core.k_i s)) (IndexStore.i_own (Core.k_i s)) (IndexStore.i_nodes (Core.k_i s))
+                  (Core.k_cn s) (Core.k_tok s) (Core.k_hd s).
+Proof. intros; reflexivity. Qed.
+Print Assumptions C07_core_inv_def.
+
+(* every action of every thread: no `drop_edge` meets a last edge, the store component runs the
+   script of store operations, the projection is a run of Conc.v, the invariant is kept *)
+Theorem C07_core_step : forall k terms nl c s a s' r rs,
+  CoreProofs.KInv k terms nl c s -> Core.kstep k terms nl c s a = Some (s', r, rs) ->
+  IndexStoreProofs.no_leak rs = true /\
+  IndexStore.irun c (Core.k_i s) (Core.kstep_ops k terms nl s a) = Some (Core.k_i s', rs) /\
+  Conc.run k terms nl (Core.kproj s) (Core.kacts a r) = Some (Core.kproj s') /\
+  CoreProofs.KInv k terms nl c s'.
+Proof. exact CoreProofs.kstep_spec. Qed.
+Print Assumptions C07_core_step.
+
+(* erasing the store component of any run from a new manager gives a run of Conc.v from [cempty] *)
+Theorem C07_core_sim : forall k terms nl c n sched s xs rs, (1 <= Alloc.chunk c)%N -> (1 <= Alloc.term c)%N ->
+  Core.krun k terms nl c (Core.kinit c n) sched = Some (s, xs, rs) ->
+  Conc.run k terms nl Conc.cempty (Core.kacts_list sched xs) = Some (Core.kproj s) /\ length xs = length sched.
+Proof. exact CoreThms.core_sim. Qed.
+Print Assumptions C07_core_sim.
+
+(* the transfer: whatever holds in every reachable state of Conc.v (all C07_* / C05_sm_* theorems
+   stated over [run cempty] / [CInv]) holds for the projection of every reachable state of the core *)
+Theorem C07_core_transfer : forall k terms nl c (P : Conc.cst -> Prop),
+  (forall sched s, Conc.run k terms nl Conc.cempty sched = Some s -> P s) ->
+  forall s, CoreProofs.kreachable k terms nl c s -> P (Core.kproj s).
+Proof. exact CoreThms.core_transfer. Qed.
+Print Assumptions C07_core_transfer.
+
+(* non-vacuity: capacity 6, chunk 2, threads 0 / 1 + collector 2, 25 actions through every action
+   (KNot is BCDD-only), OutOfMemory, kept and removed entry, retry in the freed slot *)
+Theorem C07_core_example :
+  exists s, Core.krun Table.KBdd CoreExamples.kx_terms 4 AllocExamples.ex_cfg (Core.kinit AllocExamples.ex_cfg 3)
+              CoreExamples.kx_sched = Some (s, CoreExamples.kx_results, CoreExamples.kx_store_results) /\
+    CoreProofs.kreachable Table.KBdd CoreExamples.kx_terms 4 AllocExamples.ex_cfg s /\
+    CoreProofs.KInv Table.KBdd CoreExamples.kx_terms 4 AllocExamples.ex_cfg s /\ Core.klink_b s = true /\
+    nth_error CoreExamples.kx_results 4 = Some (Core.KRFound 2) /\ nth_error CoreExamples.kx_results 19 = Some Core.KROom /\
+    nth_error CoreExamples.kx_results 21 = Some Core.KRKept /\ nth_error CoreExamples.kx_results 22 = Some Core.KRRemoved /\
+    nth_error CoreExamples.kx_results 24 = Some (Core.KRNew 6).
+Proof.
+  destruct CoreExamples.kx_run as (s & A & B & C & D & _). exists s.
+  split; [exact A|]. split; [exact B|]. split; [exact C|]. split; [exact D|]. repeat split.
+Qed.
+Print Assumptions C07_core_example.
